@@ -67,6 +67,17 @@ def run(prop, tier):
         progs = engine_eliot.random_programs(PROFILE, 60 if tier == "quick" else 1200, SEED + 5)
         for p in progs:
             cases.append({"program": p, "trials": [{"random": 12 if tier == "quick" else 40, "seed": rng.randint(0, 10 ** 9)}]})
+        # (c) scale: more than a thousand tasks open at the same time (all starts, then a message each, then all ends, shuffled in blocks)
+        ntasks = 1100 if tier == "quick" else 2500
+        uni = []
+        for u in range(1, ntasks + 1):
+            uni += [{"id": 3 * u - 2, "u": u, "lv": [1], "k": "start"}, {"id": 3 * u - 1, "u": u, "lv": [2], "k": "msg"}, {"id": 3 * u, "u": u, "lv": [3], "k": "end"}]
+        starts = [3 * u - 2 for u in range(1, ntasks + 1)]
+        mids = [3 * u - 1 for u in range(1, ntasks + 1)]
+        ends = [3 * u for u in range(1, ntasks + 1)]
+        rng.shuffle(mids)
+        rng.shuffle(ends)
+        cases.append({"universe": uni, "light": True, "trials": [{"ids": starts + mids + ends}]})
         verdicts, states = validate_cases(cases)
         rep.cov["states"] += states
         rep.cov["transitions"] += states
